@@ -59,6 +59,49 @@ theorem join_keeps_left_unique [DecidableEq κ] (kl : α → κ) (kr : β → κ
       simp only at hcol hxy
       exact List.mem_map.mpr ⟨a', ha', by rw [hcol, ← hxy]⟩
 
+theorem eraseDups_length_le_aux [DecidableEq α] : ∀ (n : Nat) (l : List α), l.length ≤ n → l.eraseDups.length ≤ l.length
+  | 0, l, h => by
+    have : l = [] := List.eq_nil_of_length_eq_zero (by omega)
+    subst this; simp
+  | _ + 1, [], _ => by simp
+  | n + 1, a :: as, h => by
+    rw [List.eraseDups_cons]
+    have h2 : (as.filter fun b => !b == a).length ≤ as.length := List.length_filter_le _ _
+    have := eraseDups_length_le_aux n (as.filter fun b => !b == a) (by simp only [List.length_cons] at h; omega)
+    simp only [List.length_cons]; omega
+
+theorem eraseDups_length_le [DecidableEq α] (l : List α) : l.eraseDups.length ≤ l.length :=
+  eraseDups_length_le_aux l.length l (Nat.le_refl _)
+
+/-- a literal value list is declared unique exactly when it has no repeated value (adjacent or not) -/
+theorem values_unique_iff [DecidableEq α] (vals : List α) : Rel.valuesUnique vals = true ↔ vals.Nodup := by
+  unfold Rel.valuesUnique
+  induction vals with
+  | nil => simp
+  | cons a as ih =>
+    rw [List.eraseDups_cons, List.nodup_cons]
+    simp only [List.length_cons, beq_iff_eq, Nat.add_right_cancel_iff]
+    constructor
+    · intro h
+      have h1 := eraseDups_length_le (as.filter fun b => !b == a)
+      have h2 : (as.filter fun b => !b == a).length ≤ as.length := List.length_filter_le _ _
+      have h3 : (as.filter fun b => !b == a).length = as.length := by omega
+      have h4 : as.filter (fun b => !b == a) = as := List.filter_eq_self.mpr (by
+        have := (List.length_filter_eq_length_iff).mp h3; exact this)
+      rw [h4] at h
+      refine ⟨?_, ih.mp (by simpa using h)⟩
+      intro hmem
+      have := (List.filter_eq_self.mp h4) a hmem
+      simp at this
+    · rintro ⟨hn, hnd⟩
+      have h4 : as.filter (fun b => !b == a) = as := List.filter_eq_self.mpr (by
+        intro b hb; have : b ≠ a := fun e => hn (e ▸ hb); simpa using this)
+      rw [h4]; simpa using ih.mpr hnd
+
+/-- the case an adjacent-only comparison gets wrong -/
+example : Rel.valuesUnique [1, 2, 1] = false ∧ ¬ ([1, 2, 1] : List Nat).Nodup := by decide
+
+
 /-- the lossy cast is not injective: ⌊1.2⌋ = ⌊1.4⌋ (values in tenths) — the witness of the repaired defect -/
 theorem cast_to_integer_not_injective : ¬ (([12, 14] : List Int).map fun x => x / 10).Nodup := by decide
 
